@@ -230,8 +230,10 @@ package smtp
 //@   modifies p.s
 //@ contract checkNotifySet(values) (err)
 //@   prop C11 C14 C15 C19
+//@   ensures @C11,C15,C14 only-the-four-keywords: err == nil ==> len(values) >= 1 && (forall j :: 0 <= j && j < len(values) ==> values[j] == "NEVER" || values[j] == "DELAY" || values[j] == "FAILURE" || values[j] == "SUCCESS")
 //@   loop 1:
-//@     invariant seen != nil
+//@     invariant seen != nil && !wasalloc(seen) && rangeindex < len(values)
+//@     invariant forall j :: 0 <= j && j <= rangeindex ==> values[j] == "NEVER" || values[j] == "DELAY" || values[j] == "FAILURE" || values[j] == "SUCCESS"
 
 //@ contract parseArgs(s) (argMap, err)
 //@   prop C11 C19
@@ -429,3 +431,162 @@ package smtp
 //@   loop 2:
 //@     invariant status != nil && !wasalloc(status) && len(status.status) == len(c.recipients)
 //@     invariant @C13,C04 replies-so-far: c.replies == old(c.replies) + rangeindex + 1 && c.finals == old(c.finals) + rangeindex + 1 && rangeindex < len(c.recipients)
+
+// =======================================================================================
+// Client
+// =======================================================================================
+
+//@ contract validateLine(line) (err)
+//@   prop C15
+//@   ensures @C15 exact: (err == nil) == noCRLF(line)
+
+//@ contract (*Client).readResponse(c, expectCode) (code, msg, err)
+//@   prop C15 C16 C18
+//@   requires c != nil && c.text != nil
+//@   modifies c.text.Reader.resps
+//@   ensures c.text.Reader.resps == old(c.text.Reader.resps) + 1
+
+//@ contract (*Client).cmd(c, expectCode, format, args) (code, msg, err)
+//@   prop C15
+//@   requires c != nil && c.conn != nil && c.text != nil
+//@   requires @C15 command-is-one-line: noCRLF(fmtline(format, args))
+//@   modifies c.text.cmds, c.text.Reader.resps
+//@   ensures @C15 one-line-written: c.text.cmds == old(c.text.cmds) + 1
+//@   ensures c.text.Reader.resps <= old(c.text.Reader.resps) + 1 && c.text.Reader.resps >= old(c.text.Reader.resps)
+
+//@ contract (*Client).greet(c) (err)
+//@   prop C15
+//@   requires c != nil && c.conn != nil && c.text != nil
+//@   modifies c.didGreet, c.greetError, c.text.Reader.resps
+
+//@ contract (*Client).helo(c) (err)
+//@   prop C15 C10
+//@   requires clientWF(c)
+//@   modifies c.ext, c.text.cmds, c.text.Reader.resps
+//@   ensures c.text.cmds == old(c.text.cmds) + 1 && c.ext == nil
+
+//@ contract (*Client).ehlo(c) (err)
+//@   prop C15 C10
+//@   requires clientWF(c)
+//@   modifies c.ext, c.text.cmds, c.text.Reader.resps
+//@   ensures c.text.cmds == old(c.text.cmds) + 1
+//@   ensures @C10 capabilities-from-this-reply: err == nil ==> c.ext != nil && !wasalloc(c.ext)
+//@   ensures err != nil ==> c.ext == old(c.ext)
+//@   loop 1:
+//@     invariant ext != nil && !wasalloc(ext) && c.ext == old(c.ext) && c.text.cmds == old(c.text.cmds) + 1
+
+//@ contract (*Client).hello(c) (err)
+//@   prop C15 C10
+//@   requires clientWF(c)
+//@   modifies c.didGreet, c.greetError, c.didHello, c.helloError, c.ext, c.text.cmds, c.text.Reader.resps
+//@   ensures @C15 at-most-ehlo-then-helo: c.text.cmds >= old(c.text.cmds) && c.text.cmds <= old(c.text.cmds) + 2
+//@   ensures @C15 only-once: old(c.didHello) ==> c.text.cmds == old(c.text.cmds) && c.ext == old(c.ext)
+//@   ensures err == nil ==> c.didHello
+
+//@ contract (*Client).Hello(c, localName) (err)
+//@   prop C15
+//@   requires clientWF(c)
+//@   modifies c.localName, c.didGreet, c.greetError, c.didHello, c.helloError, c.ext, c.text.cmds, c.text.Reader.resps
+//@   ensures @C15 nothing-written-for-bad-line: !noCRLF(localName) ==> err != nil && c.text.cmds == old(c.text.cmds) && c.localName == old(c.localName)
+//@   ensures @C15 local-name-stays-line-safe: noCRLF(c.localName)
+//@   ensures @C15 at-most-ehlo-then-helo: c.text.cmds <= old(c.text.cmds) + 2
+
+//@ contract (*Client).Verify(c, addr) (err)
+//@   prop C15
+//@   requires clientWF(c)
+//@   modifies c.didGreet, c.greetError, c.didHello, c.helloError, c.ext, c.text.cmds, c.text.Reader.resps
+//@   ensures @C15 nothing-written-for-bad-line: !noCRLF(addr) ==> err != nil && c.text.cmds == old(c.text.cmds)
+//@   ensures @C15 greeting-plus-one: c.text.cmds <= old(c.text.cmds) + 3
+
+//@ contract (*Client).Reset(c) (err)
+//@   prop C15 C18
+//@   requires clientWF(c)
+//@   modifies c.didGreet, c.greetError, c.didHello, c.helloError, c.ext, c.rcpts, c.text.cmds, c.text.Reader.resps
+//@   ensures @C15 greeting-plus-one: c.text.cmds <= old(c.text.cmds) + 3
+//@ contract (*Client).Noop(c) (err)
+//@   prop C15
+//@   requires clientWF(c)
+//@   modifies c.didGreet, c.greetError, c.didHello, c.helloError, c.ext, c.text.cmds, c.text.Reader.resps
+//@   ensures @C15 greeting-plus-one: c.text.cmds <= old(c.text.cmds) + 3
+//@ contract (*Client).Quit(c) (err)
+//@   prop C15
+//@   requires clientWF(c)
+//@   modifies c.didGreet, c.greetError, c.didHello, c.helloError, c.ext, c.text.cmds, c.text.Reader.resps
+//@   ensures @C15 greeting-plus-one: c.text.cmds <= old(c.text.cmds) + 3
+
+// ---------------------------------------------------------------------------------------
+// Encoders (C14, C15)
+// ---------------------------------------------------------------------------------------
+
+//@ contract isPrintableASCII(val) (ok)
+//@   prop C11 C14 C15
+//@   ensures @C15,C14 printable-means-line-safe: ok ==> noCRLF(val)
+//@   loop 1:
+//@     invariant 0 <= itpos() && itpos() <= len(val) && (forall k :: 0 <= k && k < itpos() ==> val[k] >= 32 && val[k] <= 126)
+
+//@ contract encodeXtext(raw) (s)
+//@   prop C14 C15
+//@   ensures @C15,C14 result-is-one-token: tokenSafe(s) && noCRLF(s)
+//@   loop 1:
+//@     invariant tokenSafe(out.content)
+//@     backedge @C14 xchar-sent-as-is: ch >= 33 && ch <= 126 && ch != 43 && ch != 61 ==> out.content == head(out.content) + runestr(ch)
+//@     backedge @C14 hexchar-is-plus-and-two-digits: ch < 128 && !(ch >= 33 && ch <= 126 && ch != 43 && ch != 61) ==> len(out.content) == len(head(out.content)) + 3
+
+//@ contract encodeUTF8AddrXtext(raw) (s)
+//@   prop C14 C15
+//@   ensures @C15,C14 result-is-one-token: tokenSafe(s) && noCRLF(s)
+//@   loop 1:
+//@     invariant tokenSafe(out.content)
+//@     backedge @C14 qchar-sent-as-is: ch >= 33 && ch <= 126 && ch != 43 && ch != 61 && ch != 92 ==> out.content == head(out.content) + runestr(ch)
+//@     backedge @C14 everything-else-escaped: ch < 128 && !(ch >= 33 && ch <= 126 && ch != 43 && ch != 61 && ch != 92) ==> len(out.content) >= len(head(out.content)) + 5
+
+//@ contract encodeUTF8AddrUnitext(raw) (s)
+//@   prop C14 C15
+//@   ensures @C15 result-has-no-line-break: noCRLF(s)
+//@   loop 1:
+//@     invariant noCRLF(out.content)
+//@     backedge @C14 qchar-sent-as-is: ch >= 33 && ch <= 126 && ch != 43 && ch != 61 && ch != 92 ==> out.content == head(out.content) + runestr(ch)
+//@     backedge @C14 other-ascii-escaped: ch < 128 && !(ch >= 33 && ch <= 126 && ch != 43 && ch != 61 && ch != 92) ==> len(out.content) >= len(head(out.content)) + 5
+
+// ---------------------------------------------------------------------------------------
+// Client: MAIL / RCPT / DATA
+// ---------------------------------------------------------------------------------------
+
+//@ contract (*Client).Mail(c, from, opts) (err)
+//@   prop C14 C15 C18 C10
+//@   requires clientWF(c)
+//@   modifies c.didGreet, c.greetError, c.didHello, c.helloError, c.ext, c.text.cmds, c.text.Reader.resps
+//@   before (*strings.Builder).WriteString: @C15 only-negotiated-parameters: ($1 == " BODY=8BITMIME" ==> has(c.ext, "8BITMIME")) && ($1 == " REQUIRETLS" ==> has(c.ext, "REQUIRETLS")) && ($1 == " SMTPUTF8" ==> has(c.ext, "SMTPUTF8"))
+//@   before fmt.Fprintf: @C15 only-negotiated-parameters: ($1 == " SIZE=%v" ==> has(c.ext, "SIZE")) && ($1 == " RET=%s" ==> has(c.ext, "DSN")) && ($1 == " ENVID=%s" ==> has(c.ext, "DSN")) && ($1 == " AUTH=%s" ==> has(c.ext, "AUTH"))
+//@   before (*Client).cmd: @C15 extensions-from-the-latest-ehlo: c.didHello
+//@   ensures @C15 nothing-written-for-bad-line: !noCRLF(from) ==> err != nil && c.text.cmds == old(c.text.cmds)
+//@   ensures @C15 greeting-plus-one: c.text.cmds <= old(c.text.cmds) + 3
+//@   ensures @C15 requiretls-not-silently-dropped: opts != nil && opts.RequireTLS && !has(c.ext, "REQUIRETLS") ==> err != nil && c.text.cmds <= old(c.text.cmds) + 2
+//@   ensures @C15 smtputf8-not-silently-dropped: opts != nil && opts.UTF8 && !has(c.ext, "SMTPUTF8") ==> err != nil && c.text.cmds <= old(c.text.cmds) + 2
+
+//@ contract (*Client).Rcpt(c, to, opts) (err)
+//@   prop C14 C15 C18
+//@   requires clientWF(c)
+//@   modifies c.rcpts, c.rcpts[**], c.text.cmds, c.text.Reader.resps
+//@   before (*strings.Builder).WriteString: @C15 only-negotiated-parameters: ($1 == " NOTIFY=" ==> has(c.ext, "DSN"))
+//@   before fmt.Fprintf: @C15 only-negotiated-parameters: ($1 == " ORCPT=%s;%s" ==> has(c.ext, "DSN"))
+//@   before fmt.Sprintf: @C15 only-negotiated-parameters: ($0 == " RRVS=%s" ==> has(c.ext, "RRVS"))
+//@   ensures @C15 nothing-written-for-bad-line: !noCRLF(to) ==> err != nil && c.text.cmds == old(c.text.cmds)
+//@   ensures @C15 exactly-one-line-otherwise: c.text.cmds <= old(c.text.cmds) + 1
+//@   ensures @C18 accepted-recipient-recorded: err == nil ==> len(c.rcpts) == len(old(c.rcpts)) + 1
+//@   ensures @C18 refused-recipient-not-recorded: err != nil ==> len(c.rcpts) == len(old(c.rcpts))
+//@   loop 1:
+//@     invariant noCRLF(sb.content) && c.text.cmds == old(c.text.cmds) && len(c.rcpts) == len(old(c.rcpts)) && c.rcpts == old(c.rcpts)
+//@     invariant forall j :: 0 <= j && j < len(opts.Notify) ==> noCRLF(opts.Notify[j])
+
+//@ contract (*Client).Data(c) (w, err)
+//@   prop C15 C16 C18
+//@   requires clientWF(c)
+//@   modifies c.text.cmds, c.text.Reader.resps
+//@   ensures @C15 one-line: c.text.cmds == old(c.text.cmds) + 1
+
+//@ contract (*Client).LMTPData(c, statusCb) (w, err)
+//@   prop C15 C18
+//@   requires clientWF(c)
+//@   modifies c.text.cmds, c.text.Reader.resps
+//@   ensures @C15 at-most-one-line: c.text.cmds <= old(c.text.cmds) + 1
